@@ -122,6 +122,9 @@ def child_main(prop_id: str, desc_path: str, out_path: str) -> int:
     except Exception:
         pass
     try:
+        if os.environ.get("VERIF_REACH"):   # before the library is imported: module-level statements count too
+            from .monitors import reach
+            reach.install(prop_id, str(env.REPO / "src"))
         env.bootstrap()
         mod = load_prop(prop_id)
         mod.run_shard(desc, rec)
